@@ -9,6 +9,8 @@ import (
 	"fmt"
 	"math"
 	"math/big"
+	"os"
+	"os/exec"
 	"regexp"
 	"strconv"
 	"strings"
@@ -25,7 +27,7 @@ func init() {
 		ID:    "C17",
 		Level: "model_checking",
 		Rule: "all decimal int spellings <=4 chars over {0,1,7,9,_} + spellings around 2^63/2^64/10^19; 0x/0o/0b spellings <=3 digits + widest values; exponent ints M e K (K in [-3,20]) and with extreme exponents (21 .. beyond int64; zero mantissas, non-representable products, exact quotients of mantissas with up to 3002 digits); floats D.D (<=3+3 digits) and exponent floats incl. extreme magnitudes; " +
-			"every escape \\c for c in 0x20..0x7e, \\x/\\u/octal samples, embedded quotes, trailing backslash, char and raw strings; every identifier <=4 (thorough 5) chars over {a,Z,7,_,?,!} matching the documented pattern, every keyword-prefixed/suffixed name and long names of every length 2^k-1, 2^k, 2^k+1 up to 1025 (thorough 4097) in 4 spellings, each as variable, property, symbol, called function, symbol function (sym?) and listed key, " +
+			"every escape \\c for c in 0x20..0x7e, \\x/\\u/octal samples, embedded quotes, trailing backslash, char and raw strings; every identifier <=4 (thorough 5) chars over {a,Z,7,_,?,!} matching the documented pattern, every keyword-prefixed/suffixed name and long names of every length 2^k-1, 2^k, 2^k+1 up to 1025 (thorough 4097) in 4 spellings, each as variable, property, symbol, called function, symbol function (sym?) and listed key; all 475254 lower-case names of <=4 letters, 262144 six-letter and 531441 twelve-letter names over small alphabets and 126 long names sharing prefixes of 31..4097 bytes have pairwise different symbol keys; 11 script files run by the real command-line binary (raw strings spanning LF / CRLF / CR line breaks keep every byte), and variables/properties named by such pairs stay apart, " +
 			"each used as variable, property, symbol and call; oracle = math/big, strconv.ParseFloat, escape table; non-representable literals must be rejected; non-trivial = every case; distinct = distinct spelling x use",
 		Assumptions: []string{
 			"exponent-int spellings that do not denote an integer (1e-3) are a don't-care",
@@ -420,6 +422,9 @@ func run(c *core.Ctx) {
 			emit(t)
 		}
 	}, body, j)
+	distinctNames(c)
+	fcs := fileCases()
+	tk.Sharded(c, len(fcs), func(i int) { judgeFile(c, fcs[i]) })
 	// spellings that may not lex get small batches (a syntax error is bisected down to the case)
 	tk.Batched(c, 8, "", func(emit func(tcase)) {
 		for _, t := range risky {
@@ -428,7 +433,134 @@ func run(c *core.Ctx) {
 	}, body, j)
 }
 
+// distinctNames: a name works as a variable/property/symbol only if no OTHER name is the same variable: variables,
+// properties and symbols are keyed by the symbol hash, so every pair of different names of a bounded dictionary
+// (all lower-case names of <=4 letters, and long names that share a prefix of 255..4097 bytes) must get different
+// keys, and a pair of variables named by each prefix pair must hold different values.
+func distinctNames(c *core.Ctx) {
+	if c.Shard != 0 {
+		return
+	}
+	seen := map[object.SymHash]string{}
+	n := 0
+	check := func(name string) {
+		n++
+		h := object.GetSymHash(name)
+		if other, dup := seen[h]; dup && other != name {
+			c.Violation(core.Violation{Key: "names/distinct-names-are-one-symbol", Case: core.JSON(tcase{Class: "names/pair", Src: other + " := 1\n" + name + " := 2\n[" + other + ", " + name + "]", Kind: "repr", Strs: []string{"[1, 2]"}}),
+				Desc: fmt.Sprintf("%.40s and %.40s", other, name), Expected: "different names are different variables, properties and symbols", Observed: "both names have the symbol key " + fmt.Sprint(h),
+				Repro: other + " := 1\n" + name + " := 2\n[" + other + ", " + name + "].p\n"})
+			return
+		}
+		seen[h] = name
+	}
+	var rec func(prefix string, left int)
+	rec = func(prefix string, left int) {
+		if prefix != "" {
+			check(prefix)
+		}
+		if left == 0 {
+			return
+		}
+		for ch := 'a'; ch <= 'z'; ch++ {
+			rec(prefix+string(ch), left-1)
+		}
+	}
+	rec("", 4)
+	// names longer than four bytes (more bits than a 32-bit key): every 6-letter name over 8 letters, every 12-letter name over 3
+	var rec2 func(alpha, prefix string, left int)
+	rec2 = func(alpha, prefix string, left int) {
+		if left == 0 {
+			check(prefix)
+			return
+		}
+		for _, ch := range alpha {
+			rec2(alpha, prefix+string(ch), left-1)
+		}
+	}
+	rec2("aeinorst", "", 6)
+	rec2("xyz", "", 12)
+	var pairs []tcase
+	for _, k := range []int{31, 32, 33, 63, 64, 65, 127, 128, 129, 255, 256, 257, 511, 512, 513, 1023, 1024, 1025, 4095, 4096, 4097} {
+		pre := strings.Repeat("longName_", k/9+1)[:k]
+		for _, suf := range []string{"a", "b", "ab", "ba", "a1", "a_"} {
+			check(pre + suf)
+		}
+		a, b := pre+"a", pre+"b"
+		pairs = append(pairs, tcase{Class: "names/shared-prefix", Src: a + " := 1\n" + b + " := 2\no := {" + a + ": 3, " + b + ": 4}\n[" + a + ", " + b + ", o." + a + ", o." + b + ", o.keys.len, '" + a + " == '" + b + "]", Kind: "repr", Strs: []string{"[1, 2, 3, 4, 2, false]"}})
+	}
+	// a published pair of different 13-letter names with the same 64-bit FNV-1a value (own key: a known finding must not
+	// hide other collisions)
+	ka, kb := "swddgEpwqyega", "lwvgwfgDAyorc"
+	if object.GetSymHash(ka) == object.GetSymHash(kb) {
+		c.Violation(core.Violation{Key: "names/distinct-names-are-one-symbol/" + ka + "+" + kb, Case: core.JSON(tcase{Class: "names/pair", Src: ka + " := 1\n" + kb + " := 2\n[" + ka + ", " + kb + "]", Kind: "repr", Strs: []string{"[1, 2]"}}),
+			Desc: ka + " and " + kb, Expected: "different names are different variables, properties and symbols", Observed: "both names have the same symbol key (64-bit FNV-1a collision)",
+			Repro: ka + " := 1\n" + kb + " := 2\n[" + ka + ", " + kb + "].p\n"})
+	}
+	c.Note("names_with_pairwise_distinct_symbol_keys", n)
+	c.Eval(n)
+	c.Validated(n)
+	tk.Batched(c, 8, "", func(emit func(tcase)) {
+		for _, t := range pairs {
+			emit(t)
+		}
+	}, func(t tcase) string { return t.Src }, func(t tcase, o panrun.Obs) { judge(c, t, o) })
+}
+
+// fileCases: literals in script FILES run by the real command-line binary (the bytes of the file reach the lexer
+// through runscript.ReadFile): raw strings spanning lines keep their CR / LF / CRLF bytes.
+type fileCase struct {
+	Class string `json:"class"` // "file/..."
+	Bytes string `json:"bytes"`
+	Want  string `json:"want"`
+}
+
+func fileCases() []fileCase {
+	var cs []fileCase
+	for _, nl := range []struct{ name, s string }{{"LF", "\n"}, {"CRLF", "\r\n"}, {"CR", "\r"}, {"LFCR", "\n\r"}, {"CRCRLF", "\r\r\n"}} {
+		raw := "ab" + nl.s + "cd" + nl.s + nl.s + "e"
+		cs = append(cs, fileCase{Class: "file/raw-string-spanning-lines/" + nl.name, Bytes: "s := `" + raw + "`\n[s.len, s == \"ab\" + " + fmt.Sprintf("%q", nl.s) + " + \"cd\" + " + fmt.Sprintf("%q", nl.s+nl.s) + " + \"e\"].p\n",
+			Want: fmt.Sprintf("[%d, true]\n", len(raw))})
+		cs = append(cs, fileCase{Class: "file/line-breaks-between-statements/" + nl.name, Bytes: "a := 1" + nl.s + "b := \"x y\"" + nl.s + "[a, b].p" + nl.s, Want: "[1, \"x y\"]\n"})
+	}
+	cs = append(cs, fileCase{Class: "file/string-bytes", Bytes: "[\"tab\there\".len, `q\"q`.len, \"日本\".len, ?\t.len].p\n", Want: "[8, 3, 2, 1]\n"})
+	return cs
+}
+
+func judgeFile(c *core.Ctx, t fileCase) {
+	c.Eval(1)
+	c.Validated(1)
+	c.Nontrivial(1)
+	cli := os.Getenv("PANMC_CLI")
+	if cli == "" {
+		c.HarnessError("PANMC_CLI is not set")
+		return
+	}
+	f, err := os.CreateTemp(os.Getenv("PANMC_SCRATCH"), "c17file*.pangaea")
+	if err != nil {
+		c.HarnessError("%v", err)
+		return
+	}
+	defer os.Remove(f.Name())
+	f.WriteString(t.Bytes)
+	f.Close()
+	cmd := exec.Command("timeout", "30", cli, f.Name())
+	var so, se strings.Builder
+	cmd.Stdout, cmd.Stderr = &so, &se
+	cmd.Run()
+	c.Outcome("file:" + map[bool]string{true: "ok", false: "differs"}[so.String() == t.Want])
+	if so.String() != t.Want {
+		c.Violation(core.Violation{Key: strings.Join(strings.Split(t.Class, "/")[:2], "/") + "/wrong-value", Case: core.JSON(t), Desc: fmt.Sprintf("file bytes %q", t.Bytes), Expected: fmt.Sprintf("stdout %q", t.Want),
+			Observed: fmt.Sprintf("stdout %q stderr %.200q", so.String(), se.String())})
+	}
+}
+
 func replay(c *core.Ctx, raw json.RawMessage) {
+	var ft fileCase
+	if json.Unmarshal(raw, &ft) == nil && strings.HasPrefix(ft.Class, "file/") {
+		judgeFile(c, ft)
+		return
+	}
 	var t tcase
 	if err := json.Unmarshal(raw, &t); err != nil {
 		c.HarnessError("bad case: %v", err)
